@@ -119,6 +119,17 @@ def run(ctx, rep):
     progs += PG.gen_programs(ctx.rng('unres2'), 100 if ctx.quick else 1000, tainted=False, second_unresolvable=True)
     # decorators that only wrap, stacked: one pass-through applied twice (two functions sharing a code object)
     progs += PG.gen_programs(ctx.rng('stack'), 80 if ctx.quick else 600, tainted=False, routes=['closure_stack'])
+    # functools.partial of a higher-order FORWARDER whose own callee is its first bound positional:
+    # functools.partial(mid_chain_pos, callee, <literals>, *args, **kwargs) written in the body
+    hof = PG.gen_programs(ctx.rng('partial_hof'), 70 if ctx.quick else 600, tainted=False, routes=['chain_pos'])
+    # (one forwarding call, no star argument of the program's own: the declared equivalent of the
+    # two-level chain is unambiguous there)
+    hof = [p_ for p_ in hof if len(p_.calls) == 1 and not (p_.calls[0].own_va or p_.calls[0].own_vk)]
+    for p_ in hof:
+        for c_ in p_.calls:
+            c_.partial = True
+        p_.render()
+    progs += hof
     # decorators that only wrap, copying metadata: functools.wraps(callee) / update_wrapper over a callee
     # whose __dict__ holds a stored __signature__ (assigned, upgraded, modifiers.annotate), which the
     # wrapper inherits next to __wrapped__: the wrapper's own def is still what is analysed
